@@ -32,8 +32,8 @@ PROPS = {
         ],
     },
     "C07": {
-        "suites": [{"name": "chan", "quick": 1500, "thorough": 60000},
-                   {"name": "deliver", "quick": 360, "thorough": 6000}],
+        "suites": [{"name": "chan", "quick": 2000, "thorough": 60000},
+                   {"name": "deliver", "quick": 480, "thorough": 6000}],
         "technique": "Lean 4 theorems (core Lean, inductive invariants over all reachable states of a labelled transition "
                      "system) about a hand-written model of command.rs + triple_buffer; the same definitions run as the twin "
                      "and are diffed against the real CommandWriter/CommandReader pairs (sequentially, under scripted two-thread "
@@ -59,8 +59,8 @@ PROPS = {
         ],
     },
     "C08": {
-        "suites": [{"name": "storage", "quick": 2500, "thorough": 100000},
-                   {"name": "life", "quick": 1200, "thorough": 50000}],
+        "suites": [{"name": "storage", "quick": 5000, "thorough": 100000},
+                   {"name": "life", "quick": 2500, "thorough": 50000}],
         "technique": "Lean 4 theorems (core Lean, inductive invariants over all reachable states of a labelled transition "
                      "system) about a hand-written model of backend/resources.rs + atomic-arena + rtrb; the same definitions "
                      "run as the twin and are diffed against the real ResourceStorage / SelfReferentialResourceStorage / "
